@@ -8,6 +8,8 @@ c  composition: order-2 palindrome A B C B A; triple-jump palindromes with the o
 d  driver: extended state initialised with copies, output = (Q,P) block, signed dt, omega>0; gradient slots
 
 d-storage / d-event-driver  gradient blocks are stored unchanged (C17.b); the event driver carries the extended state (C11.b)
+
+d-direction (round 3)  the direction-wrapped system of the model is built by _DirectedSystem's own constructor
 """
 from __future__ import annotations
 
